@@ -5,6 +5,7 @@
 (*   body  B ::= x | y | B + B | B - B | B * B | -B | c*B | B + c | A @ B  *)
 (*             | mprod(B, Q)            (all of the base shape N)          *)
 (*   head  H ::= id | slice | cat(., y) | pad | kron(., y) | diag | full   *)
+(*             | kronl: kron(kron(None, .), y) | kronr: kron(., None)      *)
 (*             | bcast / bmul / bsub: . + w, . * w, . - w with w one order *)
 (*               lower (broadcast)                                          *)
 (*   red   R ::= sum | sum over mode 0 then sum | dot with a constant      *)
@@ -36,7 +37,9 @@ Bodies(n) == IF n = 0 THEN {Leaf("x"), Leaf("y")}
                   T \cup {Un(o, a) : o \in {"neg", "scal", "sscal", "adds", "matvec", "vecmat", "mprod"}, a \in T}
                     \cup {Bin(o, a, b) : o \in {"add", "sub", "mul"}, a \in T, b \in Bodies(0)}
 
-Heads == {"id", "slice", "ell", "rslice", "cat", "pad", "kron", "diag", "full", "bcast", "bmul", "bsub"}
+Heads == {"id", "slice", "ell", "rslice", "cat", "pad", "kron", "kronl", "kronr", "diag", "full", "bcast", "bmul", "bsub"}
+\* kronl: the documented accumulate idiom  r = kron(None, B); r = kron(r, y)  (kron with an absent first factor copies the second);
+\* kronr: kron(B, None)  (each absent-factor branch of kron makes its own copy of the cores, which must stay on the autograd graph)
 \* slice: integer on the first mode; ell: t[...] (documented as a copy); rslice: t[0:n-1, ...] (range slice with Ellipsis);
 \* bcast / bmul / bsub: B + w, B * w, B - w with w of order d-1 (broadcast over the missing leading mode: each operator has its own branch)
 Reds == {"sum", "sum0", "dot", "norm", "norm2", "item", "mask", "bilinear", "wsum"}
@@ -70,7 +73,7 @@ Init == /\ s \in SHAPES /\ body \in Bodies(DEPTH) /\ head \in Heads /\ red \in R
         \* the tracked operand has to occur in the program (otherwise there is nothing to differentiate)
         /\ (track \in {"x", "x0", "xl", "xr", "xw2"} => Uses(body, "x"))
         /\ (track \in {"xl", "xr", "xw2"} => Len(s.N) >= 2)
-        /\ (track = "y" => Uses(body, "y") \/ head \in {"cat", "kron"})
+        /\ (track = "y" => Uses(body, "y") \/ head \in {"cat", "kron", "kronl"})
         \* operands of different order tracked together (watch_list / grad_list over a list of tensors)
         /\ (track = "wx" => head \in {"bcast", "bmul", "bsub"} /\ Uses(body, "x"))
         /\ (head \in {"bcast", "bmul", "bsub"} => Len(s.N) >= 2)
